@@ -128,6 +128,13 @@ Fixpoint to_js (fm : bool) (en : env) (e : expr) {struct e} : js :=
   | EMenu pid it mn =>
     JDot (JIdx (JDot (JIdx js_menubar (js_raw_or en mn (to_js fm en mn))) "item") (js_raw_or en it (to_js fm en it)))
          (nth pid MENUITEM_PROPERTIES "")
+  | EThe k i =>
+    let name := nth i (the_table k) "" in
+    match k with
+    | TSpecial => js_prop fm name                                   (* _system.floatPrecision, ... *)
+    | TDateTime => JCall "_system.date" [JLit ("'" ++ name ++ "'")]
+    | TSystem => JMember (assoc_or name SYSTEM_PROPERTIES) name     (* _movie.stageColor, ... *)
+    end
   end.
 
 (* side conditions: locals are plain local-variable nodes; call names have no translation of their own *)
@@ -147,6 +154,9 @@ Fixpoint js_ok (en : env) (e : expr) {struct e} : Prop :=
   | EMenu _ it mn => js_ok en it /\ js_ok en mn
   | _ => True
   end.
+(* every system property is attached to a runtime object other than me / tell_obj / _global (the regenerated table) *)
+Definition sys_owner_ok (o : string) : bool :=
+  negb (String.eqb o "me") && negb (String.eqb o "tell_obj") && negb (String.eqb o "_global").
 Fixpoint js_ok_args (en : env) (l : list expr) : Prop := match l with [] => True | x :: r => js_ok en x /\ js_ok_args en r end.
 
 (* ---- reading the JavaScript tree back: the expression it denotes, with names in place of table indices ---- *)
@@ -195,6 +205,13 @@ Fixpoint name_e (fm : bool) (en : env) (e : expr) {struct e} : nexpr :=
     end
   | EMenu pid it mn =>
     NMenuItem (nth pid MENUITEM_PROPERTIES "") (n_raw_or en it (name_e fm en it)) (n_raw_or en mn (name_e fm en mn))
+  | EThe k i =>
+    let name := nth i (the_table k) "" in
+    match k with
+    | TSpecial => NProp (match assoc_str name VARIABLE_KNOWN_PROPERTIES with Some o => o | None => if fm then "this" else "me" end) name
+    | TDateTime => NCall "_system.date" [NLit ("'" ++ name ++ "'")]
+    | TSystem => if String.eqb (assoc_or name SYSTEM_PROPERTIES) "_global" then NGlob name else NProp (assoc_or name SYSTEM_PROPERTIES) name
+    end
   end.
 
 Definition all_binops : list binop :=
